@@ -55,7 +55,7 @@ pub fn c17_complement_n3_t3() {
 }
 
 // AdjacencyList::complement on every digraph of order 3 with exactly 8 available CPU(s) equals the single-threaded definition.
-// @verif prop=C17 tier=thorough fl=f2 role=complement/t8 t=3600 mem=30 par=8
+// @verif prop=C17 tier=exp fl=f2 role=complement/t8 t=3600 mem=30 par=8
 #[cfg_attr(kani, kani::proof)]
 #[cfg_attr(kani, kani::unwind(10))]
 pub fn c17_complement_n3_t8() {
@@ -95,7 +95,7 @@ pub fn c17_degree_sequence_n3_t3() {
 }
 
 // AdjacencyList::degree_sequence (and the other queries) on every digraph of order 3 with exactly 8 CPU(s).
-// @verif prop=C17 tier=thorough fl=f2 role=degree-sequence/t8 t=3600 mem=30 par=8
+// @verif prop=C17 tier=exp fl=f2 role=degree-sequence/t8 t=3600 mem=30 par=8
 #[cfg_attr(kani, kani::proof)]
 #[cfg_attr(kani, kani::unwind(10))]
 pub fn c17_degree_sequence_n3_t8() {
@@ -135,7 +135,7 @@ pub fn c17_is_semicomplete_n3_t3() {
 }
 
 // AdjacencyList::is_semicomplete (and the other predicates) on every digraph of order 3 with exactly 8 CPU(s).
-// @verif prop=C17 tier=thorough fl=f2 role=is-semicomplete/t8 t=3600 mem=30 par=8
+// @verif prop=C17 tier=exp fl=f2 role=is-semicomplete/t8 t=3600 mem=30 par=8
 #[cfg_attr(kani, kani::proof)]
 #[cfg_attr(kani, kani::unwind(10))]
 pub fn c17_is_semicomplete_n3_t8() {
@@ -327,7 +327,7 @@ pub fn c17_map_tournament_n3_t4() {
 }
 
 // AdjacencyMap::erdos_renyi(3, every p, every seed) stays a simple digraph with exactly 4 CPU(s).
-// @verif prop=C17 tier=thorough fl=f2 feat=map4 role=map-erdos-renyi/t4 t=3600 mem=30 par=4
+// @verif prop=C17 tier=exp fl=f2 feat=map4 role=map-erdos-renyi/t4 t=3600 mem=30 par=4
 #[cfg_attr(kani, kani::proof)]
 #[cfg_attr(kani, kani::unwind(10))]
 pub fn c17_map_erdos_renyi_n3_t4() {
@@ -335,7 +335,7 @@ pub fn c17_map_erdos_renyi_n3_t4() {
 }
 
 // The seeded AdjacencyMap generators repeat exactly within one configuration (2 CPUs).
-// @verif prop=C17 tier=thorough fl=f2 feat=map4 role=map-deterministic/t2 t=3600 mem=30 par=2
+// @verif prop=C17 tier=exp fl=f2 feat=map4 role=map-deterministic/t2 t=3600 mem=30 par=2
 #[cfg_attr(kani, kani::proof)]
 #[cfg_attr(kani, kani::unwind(10))]
 pub fn c17_map_deterministic_n3_t2() {
